@@ -3,5 +3,5 @@
 set -e
 cd "$(dirname "$0")/harness"
 export CARGO_NET_OFFLINE=true CARGO_TARGET_DIR=/verif/target
-cargo build --release --offline --workspace 2>&1 | tail -3
+cargo build --release --offline 2>&1 | tail -3
 echo "setup done"
